@@ -397,3 +397,19 @@ def ratio(u, v):
     if u is v or bool(u == v):
         return 1
     return u.scale / v.scale
+
+
+def inbounds_prover(prefix="inbounds"):
+    """BOUNDS_HOOK that turns every integer index into an obligation at the point of access"""
+    count = {}
+
+    def hook(k, n):
+        p = core.cur()
+        c = count.get(id(p), 0)
+        count[id(p)] = c + 1
+        if isinstance(k, SV) or isinstance(n, SV):
+            prove("%s[%d]" % (prefix, c), (SV.lift(k) >= 0) & (SV.lift(k) < SV.lift(n)))
+        elif not (0 <= k < n):
+            prove("%s[%d]" % (prefix, c), False)
+
+    return hook
